@@ -235,6 +235,7 @@ class World:
         self.lsn = None
         self.lsn_key = None
         self.cconn = self.sconn = None
+        self.rsrv6 = None
 
     # ------------------------------------------------------------------
     def _sink(self, ev, f):
@@ -245,7 +246,6 @@ class World:
         world = self
         self.loop = loop = new_loop()
         loop.net.dns['desthost'] = R_HOST
-        loop.net.dns['::1'] = R_HOST
         _verif.set_sink(self._sink)
         k = keys()
         unix = self.kind in ('lpath', 'rpath', 'direct_unix')
@@ -285,6 +285,9 @@ class World:
                 self.rsrv = await loop.create_unix_server(r_factory, R_PATH)
             else:
                 self.rsrv = await loop.create_server(r_factory, R_HOST, R_PORT)
+                if self.kind == 'socks5v6':
+                    self.rsrv6 = await loop.create_server(r_factory, '::1',
+                                                          R_PORT)
             self.cconn = await asyncssh.connect(
                 '127.0.0.1', 2222, known_hosts=None, config=None,
                 client_keys=None)
@@ -368,6 +371,8 @@ class World:
                     c.abort()
             self.acceptor.close()
             self.rsrv.close()
+            if self.rsrv6 is not None:
+                self.rsrv6.close()
             self.loop.run_until_idle()
         except BaseException:           # pylint: disable=broad-except
             pass
@@ -433,6 +438,8 @@ class World:
             if not lbl[1]:
                 self.refused = True
                 self.rsrv.close()
+                if self.rsrv6 is not None:
+                    self.rsrv6.close()
             self.deliver_msg(self.tA)
         elif op == 'DAO':
             self.deliver_msg(self.tO)
@@ -872,6 +879,13 @@ class SocksWorld:
                                                        len(obs['exceptions']):]]
         return obs
 
+    def drop_leaked(self):
+        """harness housekeeping after a leak was recorded"""
+        for t in list(self.loop.net.transports):
+            if isinstance(t.protocol, SSHForwarder) and not t.closed:
+                t.cut()
+        self.loop.run_until_idle()
+
     def stop(self):
         try:
             self.conn.abort()
@@ -1199,3 +1213,175 @@ def perm_case(row, cancel=False):
             pass
         close_loop(loop)
     return obs
+
+
+# ======================================================================
+# Forward: schedules without model states, bulk transfer, isolation
+# ======================================================================
+
+def run_labels(labels, kind='local', keep_l=True, keep_r=True,
+               sizes=(1, 300, 5000), finish='close'):
+    """Fine-mode execution of a label list (no conformance): monitors only.
+    Labels that are not possible in the reached state are skipped."""
+    w = World(kind, keep_l, keep_r, sizes, manual=True)
+    res = {'l1': [], 'script': [], 'diverged': None}
+    w.start()
+    try:
+        for lbl in labels:
+            lbl = list(lbl)
+            op = lbl[0]
+            if w.cut_done:
+                break
+            if op in ('W', 'E', 'C', 'X'):
+                app = w.apps.get(lbl[1])
+                if app is None or app.closed or app.lost:
+                    continue
+                if op in 'WE' and app.fin_sent:
+                    continue
+                if op == 'X' and w.sock_state(lbl[1]) != 'open':
+                    continue
+            if op == 'DOA' and not w.inflight(w.tA):
+                continue
+            if op == 'DAO' and not w.inflight(w.tO):
+                continue
+            w.do(lbl)
+            if lbl[0] == 'CUT':
+                w.check_released()
+            elif w.quiescent():
+                w.check_quiescent()
+        if not w.cut_done:
+            w.drain()
+            w.check_quiescent()
+            res['relayed_after_drain'] = len(w.relayed_sockets())
+            w.finish(finish)
+        res['l1'] = list(w.l1)
+        res['script'] = w.script
+        res['obs'] = _brief(w.observe())
+        res['loop_exceptions'] = w.loop_exceptions()
+        res['features'] = features(w)
+    finally:
+        w.stop()
+    return res
+
+
+def bulk_case(kind, nbytes=1 << 20, piece=65536, paused='R', chunk=None):
+    """Large transfer in both directions while one receiver has paused
+    reading for a while: nothing may be lost or reordered."""
+    w = World(kind, True, True, manual=False)
+    res = {'l1': [], 'info': {}}
+    w.start()
+    try:
+        loop = w.loop
+        if chunk:
+            for t in list(loop.net.transports):
+                if not isinstance(t.protocol, asyncssh.SSHClientConnection) \
+                        and not isinstance(t.protocol,
+                                           asyncssh.SSHServerConnection):
+                    t.chunker = lambda avail, c=chunk: c
+        L, R = w.apps['L'], w.apps['R']
+        if R is None:
+            res['l1'].append(('Complete', 'destination never connected'))
+            return res
+        victim = R if paused == 'R' else L
+        sender_e = 'L' if paused == 'R' else 'R'
+        sender = w.apps[sender_e]
+        can_pause = isinstance(victim, App)
+        if can_pause:
+            victim.t.pause_reading()
+        pattern = bytes(range(256)) * (piece // 256)
+        for i in range(nbytes // piece):
+            data = bytes((i & 255,)) + pattern[1:]
+            w.sent[sender_e] += data
+            sender.write(data)
+            loop.run_until_idle()
+        res['info']['sender_paused'] = getattr(sender, 'paused', None)
+        res['info']['received_while_paused'] = len(victim.payload())
+        # reverse direction keeps flowing meanwhile
+        back = b'reverse-direction-data' * 100
+        other_e = 'R' if sender_e == 'L' else 'L'
+        w.sent[other_e] += back
+        w.apps[other_e].write(back)
+        loop.run_until_idle()
+        w.check_prefix()
+        if sender.payload() != back:
+            w.flag('HalfClose', 'reverse direction does not flow while the '
+                   'forward direction is blocked')
+        if can_pause:
+            victim.t.resume_reading()
+        loop.run_until_idle()
+        w.check_prefix()
+        sender.write_eof()
+        loop.run_until_idle()
+        w.check_quiescent()
+        w.finish('close')
+        res['l1'] = list(w.l1)
+        res['loop_exceptions'] = w.loop_exceptions()
+    finally:
+        w.stop()
+    return res
+
+
+def isolation_case(kind, n=3):
+    """n simultaneous connections through one listener: every pair only
+    ever sees its own bytes."""
+    w = World(kind, True, True, manual=False)
+    res = {'l1': []}
+    w.start()
+    try:
+        loop = w.loop
+        ls = [w.apps['L']]
+        for _ in range(n - 1):
+            app = App(w, 'L', True)
+
+            async def cl(app=app):
+                if w.lsn_key[0] == 'unix':
+                    await loop.create_unix_connection(lambda: app, L_PATH)
+                else:
+                    await loop.create_connection(lambda: app, *w.lsn_key)
+            loop.run_until_complete(cl())
+            loop.run_until_idle()
+            if kind.startswith('socks'):
+                msgs, replies = socks_request(kind, 'desthost', R_PORT)
+                for m in msgs:
+                    app.t.write(m)
+                    loop.run_until_idle()
+                app.skip = len(b''.join(replies))
+            ls.append(app)
+        if len(w.r_apps) != n:
+            res['l1'].append(('RelayFIFO', f'{len(w.r_apps)} destination '
+                              f'connections for {n} local ones'))
+            return res
+        sent_l = [bytearray() for _ in range(n)]
+        sent_r = [bytearray() for _ in range(n)]
+        for rnd in range(4):
+            for i in range(n):
+                d = bytes((65 + i,)) * (1 + 37 * i + 1000 * rnd)
+                ls[i].t.write(d)
+                sent_l[i] += d
+                d = bytes((97 + i,)) * (3 + 11 * i + 700 * rnd)
+                w.r_apps[i].t.write(d)
+                sent_r[i] += d
+            loop.run_until_idle()
+        w.sent['L'], w.sent['R'] = sent_l[0], sent_r[0]
+        for i in range(n):
+            if w.r_apps[i].payload() != bytes(sent_l[i]) or \
+                    ls[i].payload() != bytes(sent_r[i]):
+                res['l1'].append(('RelayFIFO', f'connection {i} did not '
+                                  'receive exactly its own bytes'))
+        # closing one connection leaves the others alone
+        ls[0].t.close()
+        loop.run_until_idle()
+        for i in range(1, n):
+            if ls[i].eof_seen or ls[i].lost or w.r_apps[i].eof_seen:
+                res['l1'].append(('CloseBoth', 'closing one forwarded '
+                                  'connection closed another one'))
+        w.finish('close')
+        for a in ls[1:] + w.r_apps[1:]:
+            if not (a.eof_seen or a.lost):
+                res['l1'].append(('NoListenerLeft', 'an end was not told '
+                                  'that the connection is gone'))
+        res['l1'] += w.l1
+        res['loop_exceptions'] = w.loop_exceptions()
+    finally:
+        w.stop()
+    return res
